@@ -169,6 +169,8 @@ type FnVC struct {
 	qcount          int
 	makeSites       []makeSite
 	returns         []retRec
+	placeholders    map[string]*callSite
+	acOrd           map[*spec.AtCall]map[token.Pos]int
 }
 
 func (f *FnVC) warn(format string, a ...any) {
